@@ -631,7 +631,49 @@ func checkC11Anchors(c *Ctx) {
 	} else {
 		r.Undecided("C11.anchor", "parseAtom", "definition", "fc", "anchor function not found")
 	}
-	_ = ir.FrtPath
+	// the text the scanners read is the file's content: nothing rewrites the source between sys.ReadFile and the tokenizer
+	forwarders := map[string]bool{"psSetNewSrc": true, "newTkz": true, "initParse": true}
+	nsrc := 0
+	for _, fn := range f.Prog.Funcs {
+		fn := fn
+		ir.Walk(f.N.Func(fn), func(t ir.Term) bool {
+			app, ok := t.(*ir.App)
+			if !ok {
+				return true
+			}
+			fr, ok := app.Fun.(*ir.FuncRef)
+			if !ok || !forwarders[strings.TrimPrefix(fr.Key, f.Path+".")] || len(app.Args) == 0 {
+				return true
+			}
+			nsrc++
+			a0 := app.Args[0]
+			good := false
+			switch x := a0.(type) {
+			case *ir.Lit:
+				good = true
+			case *ir.Param:
+				good = forwarders[fn.Name]
+			case *ir.Proj:
+				if rd, ok := isCallTo(x.X, sysPath+".ReadFile"); ok && x.I == 0 && len(rd.Args) == 1 {
+					good = true
+				}
+			}
+			r.Check(good, "C11.anchor", fn.Name, sprintf("source-text#%d", nsrc), c.Pos(f.M.Fset, fn.Decl.Pos()),
+				"the tokenizer is given the file content as read (or a constant)",
+				"the tokenizer is given "+short(ir.String(f.Path, a0), 100)+": the source text is rewritten before it is scanned, so the characters of a literal that spans the rewritten region are no longer the ones written in the file")
+			return true
+		})
+	}
+	if nsrc < 3 {
+		r.Undecided("C11.anchor", "-", "source-text-sites", "fc", sprintf("%d sites hand text to the tokenizer; transpileOne, psSetNewSrc and initParse (3) were confirmed by hand", nsrc))
+	}
+	var rsp []termSpec
+	for _, t := range c14Specs["pkg/sys"] {
+		if t.fn == "ReadFile" {
+			rsp = append(rsp, t)
+		}
+	}
+	checkTermSpecsOpt(c, "C11.anchor", "pkg/sys", rsp, false)
 	// run-time side of an interpolated literal: frt.SInterP forwards the format to fmt.Sprintf unchanged and maps every
 	// argument through toS in order; toS renders integers in decimal, strings as themselves, everything else with %v.
 	var sp []termSpec
